@@ -243,7 +243,7 @@ def run(ctx):
         ctx.evaluations += 1
         if v == 'fail':
             ctx.violation(case, 'regression corpus %s: %s' % (os.path.basename(path), why))
-    failures = hyp.fan_out(ctx, 'pylib.props.c12', 'gen_case', 250 if quick else 6000, extra={'tier': ctx.tier})
+    failures = hyp.fan_out(ctx, 'pylib.props.c12', 'gen_case', 600 if quick else 8000, extra={'tier': ctx.tier})
     seen = set()
     for f in failures:
         c = f['why'].split(':')[0]
